@@ -48,7 +48,7 @@ def evil_path(r, prefix):
     base = r.choice(bases)
     depth = base.rstrip("/").count("/") if base != "/" else 0
     k = r.random()
-    tail = r.choice(["outside/x.ics", "outside/secret.ics", "outside/col/", "outside/col/m.ics", "outside/newcol", "outside/newcol/", "outside", "tmp/x", "", "root/user/", "outside/col/.git/config", "evil"])
+    tail = r.choice(["root-old/x", "root.bak/new", "rootx", "root-old/", "outside/x.ics", "outside/secret.ics", "outside/col/", "outside/col/m.ics", "outside/newcol", "outside/newcol/", "outside", "tmp/x", "", "root/user/", "outside/col/.git/config", "evil"])
     if k < 0.55:
         # climb out by exactly (or about) the depth of the base
         up = depth + r.choice([0, 1, 1, 1, 2, 3])
@@ -98,6 +98,10 @@ class PathRun:
             f.write(gen.ics(random.Random(1), "decoy-uid", summary=MARK))
         with open(os.path.join(out, "x.ics"), "wb") as f:
             f.write(gen.ics(random.Random(2), "decoy-uid-2", summary=MARK))
+        for sib in ("root-old", "root.bak"):
+            os.makedirs(os.path.join(self.arena.path, sib))
+            with open(os.path.join(self.arena.path, sib, "keep.ics"), "wb") as f:
+                f.write(gen.ics(random.Random(4), "decoy-uid-4", summary=MARK))
         st = create_store("tree", os.path.join(out, "col"))
         st.set_type("calendar")
         st.import_one("m.ics", "text/calendar", [gen.ics(random.Random(3), "decoy-uid-3", summary=MARK)])
@@ -132,7 +136,11 @@ class PathRun:
         op = {"op": "req", "method": method, "path": path, "salt": r.getrandbits(32)}
         if method in ("PUT", "POST"):
             op["ctype"] = r.choice(["text/calendar", "text/calendar", "application/octet-stream"])
-            op["body"] = gen.ics(r, "evil-uid").decode("latin-1")
+            uid = r.choice(["evil-uid", "../../../../outside/escaped", "../../../../../outside/col/m", "/etc/evil", "..", "a/../../../../outside/x", "evil-uid-2"])
+            op["body"] = gen.ics(r, uid).decode("latin-1")
+            if method == "POST" and r.random() < 0.6:
+                # an ordinary target with a hostile body
+                op["path"] = r.choice(["/user/calendars/calendar/", "/user/calendars/", "/user/contacts/addressbook/"])
         elif method == "MKCOL" and r.random() < 0.5:
             op["ctype"] = "text/xml"
             op["body"] = dav.mkcol_body([dav.RT_COLLECTION, dav.RT_CALENDAR], [(dav.P_DISPLAYNAME, "x")]).decode("latin-1")
